@@ -559,7 +559,10 @@ func runFull(r *vk.Run, p *world.Produced, c Case, acts []world.Action) {
 	o := &obs{r: r, im: f.Im, finalsAtCrash: map[int]bool{}}
 	var cur atomic.Pointer[world.Node]
 	cur.Store(f.N)
-	o.getD = func() uint64 { return cur.Load().M.GetDAIncludedHeight() }
+	// "reported" is what the node running right now reports. A restart action replaces f.N before it starts the new
+	// node's loops, and those may finalize at once (the inclusion check runs when its loop starts): the hook at SetFinal
+	// must then not look at the node that was stopped (cur is switched only when the action has returned).
+	o.getD = func() uint64 { return f.N.M.GetDAIncludedHeight() }
 	f.Exec.OnFinal = o.onFinal
 	chain(f.N.DS, o.onWrite)
 	wit := func() any { return map[string]any{"case": c, "setfinal_log": o.finals} }
@@ -720,7 +723,7 @@ func genFull(rng *rand.Rand, p *world.Produced, id int) (Case, []world.Action) {
 // Run is the check entry point.
 func Run(r *vk.Run) {
 	world.Silence()
-	r.Rule = "seeded interleavings on (a) a real aggregator: {produce non-empty/empty, one header-submission iteration, one data-submission iteration (each with outcome accept | prefix | error | ack lost | timed out), inclusion pass of the real DAIncluderLoop, clean restart (SaveCache), crash restart}; (b) a real full node fed through DA only: blobs of a proposer chain placed into DA heights in generated groupings and orders, scans by the real RetrieveLoop, inclusion passes, clean and crash restarts. Monitors at the SetFinal call and at the persist write give the order finalize -> persist -> report; soundness is judged against the contents of the DA double; bounded liveness = three clean rounds after faults stop. non-trivial = DA-included height advanced >= 2 and >= 3 (aggregator) / >= 2 (full node) kinds of actors interleaved; distinct by action list. Separate trigger regions: aggregator crash with accepted-but-not-included blocks (C07-marks-lost-on-crash), repeated tx lists (C07-commitment-keyed-marks)"
+	r.Rule = "seeded interleavings on (a) a real aggregator: {produce non-empty/empty, one header-submission iteration, one data-submission iteration (each with outcome accept | prefix | error | ack lost | timed out), inclusion pass of the real DAIncluderLoop, clean restart (SaveCache), crash restart}; (b) a real full node fed through DA only: blobs of a proposer chain placed into DA heights in generated groupings and orders, scans by the real RetrieveLoop, inclusion passes, clean and crash restarts. Monitors at the SetFinal call and at the persist write give the order finalize -> persist -> report; soundness is judged against the contents of the DA double; bounded liveness = three clean rounds after faults stop. non-trivial = DA-included height advanced >= 2 and >= 3 (aggregator) / >= 2 (full node) kinds of actors interleaved; distinct by action list. Two generated cases in five (and a copy of every crafted clean-stop case) run with a db_path other than the default (custom-db, a/b); where the node keeps its cache snapshots is the node's business: the harness only calls SaveCache and, for a crash, empties the node's root directory (the database itself is in memory). Separate trigger regions: aggregator crash with accepted-but-not-included blocks (C07-marks-lost-on-crash), repeated tx lists (C07-commitment-keyed-marks)"
 	r.Assume("DA double: accepted = stored by the double; a full node's 'observed' = blob present at a DA height not above the double's current height")
 	r.Assume("SetFinal never fails in these runs (its failure terminates the inclusion loop by design)")
 	rng := r.Rand("cases")
